@@ -49,6 +49,7 @@ class GraphSpec:
         return ts
 
     def run(s, prop, tier, seed, args, t0):
+        os.environ.setdefault('SEIR_TASK_TIMEOUT', '600' if tier == 'quick' else '3600')
         b = H.build_drv('dev-like')
         tasks = s.tasks(tier)
         if args.only:
@@ -269,6 +270,7 @@ class TextSpec(GraphSpec):
 
     def run(s, prop, tier, seed, args, t0):
         from . import ptext as PT
+        os.environ.setdefault('SEIR_TASK_TIMEOUT', '600' if tier == 'quick' else '3600')
         b = H.build_drv('dev-like')
         tb = PT.build_bs()
         tasks = s.tasks(tier)
@@ -352,6 +354,7 @@ class SerdeSpec(TextSpec):
 
     def run(s, prop, tier, seed, args, t0):
         from . import ptext as PT
+        os.environ.setdefault('SEIR_TASK_TIMEOUT', '600' if tier == 'quick' else '3600')
         b = H.build_drv('dev-like')
         tb = PT.build_bs(extra=True)
         tasks = s.tasks(tier)
@@ -365,7 +368,55 @@ class SerdeSpec(TextSpec):
         return GraphSpec.replay(s, path)
 
 
+class ExportSpec(SerdeSpec):
+    """C18 on the build-std IR (xml-builder, itertools sort, core::fmt)"""
+    key_by_clause = False
+    assumptions = ['the structure of the graph is fixed per task (two vertex slots, each one of nine shapes: absent clean / absent with stale datum and edge / present without data / with edges / with an empty, inline 3, inline 8 or heap 9 datum, read or unread / Empty with left-over bytes); payload symbolic',
+                   'all labels of a run have one kind: Alpha(n < 1024), Greek(any character of one UTF-8 length that needs no XML escaping), Str of exactly three ASCII characters; edge targets are ids below the capacity',
+                   'the text is tokenised by the checker (tags and attributes for XML, the two line forms for DOT): a change of the layout that keeps the tokens is accepted, a different vocabulary is reported',
+                   'built with the nightly toolchain and -Zbuild-std']
+    bounds = 'capacity 2, N=1 (all tasks) and N=2 (Greek labels); 18 shape pairs (quick) / all 81 (thorough) x label kinds x {xml, dot}'
+
+    def __init__(s):
+        GraphSpec.__init__(s, [], "to_xml() and to_dot() executed on the IR; the produced text (concrete skeleton, symbolic payload bytes) is tokenised and compared with the abstract state: one node per present vertex in ascending order and none for absent ids, per vertex exactly its edges (label text and target) and its data bytes iff it has data; the graph is untouched")
+        s.which = 'C18'
+
+    @property
+    def judge(s):
+        from . import pexport
+        return pexport.judge_export
+
+    def tasks(s, tier):
+        from . import pexport as PE
+        names = list(PE.SHAPES)
+        ts = []
+        pairs = [(a, b) for a in names for b in names] if tier == 'thorough' else \
+                [(names[i], names[(i + k) % len(names)]) for i in range(len(names)) for k in (1, 4)]
+        for pi, (a, b) in enumerate(pairs):
+            labs = PE.LABS if tier == 'thorough' else (PE.LABS[pi % len(PE.LABS)],)
+            for lab in labs:
+                for which in ('xml', 'dot'):
+                    ts.append(Task("to_%s N=1 cap=2 shapes=%s,%s labels=%s" % (which, a, b, lab), 'seir.pexport:ob_export', N=1, cap=2, shapes=[a, b], lab=lab, which=which,
+                                   _weight=20 if lab == 'alpha' else 5))
+        for (a, b, lab) in (('edges', 'inline8', 'greek2'), ('inline8', 'absent-stale', 'greek1'), ('edges', 'edges', 'greek3')):
+            for which in ('xml', 'dot'):
+                if tier == 'quick' and (which == 'dot' or (a, b) == ('edges', 'edges')):
+                    continue         # two symbolic labels per vertex through DOT's special cases and the sort: 800 paths, minutes
+                ts.append(Task("to_%s N=2 cap=2 shapes=%s,%s labels=%s" % (which, a, b, lab), 'seir.pexport:ob_export', N=2, cap=2, shapes=[a, b], lab=lab, which=which, _weight=30))
+        return ts
+
+    def replay(s, path):
+        from . import pexport as PE
+        v = json.load(open(path))
+        b = H.build_drv('dev-like')
+        lines, crashed, stderr = H.native_replay(b['replay'], v['job'])
+        out, info = PE.judge_export(v['job'], lines, crashed, stderr)
+        print(json.dumps({'reproduces': bool(out), 'what': out}, indent=1))
+        return 1 if out else 0
+
+
 PROPS = {
+    'C18': ExportSpec(),
     'C08': SerdeSpec('C08'),
     'C09': SerdeSpec('C09'),
     'C17': TextSpec(),
